@@ -26,6 +26,10 @@ struct Ctl {
     opened: Vec<Handle>,
     /// per opened stream: its reader has reached end of stream (or the error)
     eofs: Vec<bool>,
+    /// per opened stream: the state of its pending-open slot at the drain
+    verdicts: Vec<String>,
+    /// a write_frame made its buffering decision while buffering was already off (from then on the buffer must stay empty)
+    unbuffered_decide: bool,
 }
 
 async fn park(ctl: &Arc<Mutex<Ctl>>, tid: usize, name: &str) {
@@ -151,7 +155,7 @@ impl Group for SchedGroup {
         let mut out = Outcome::default();
         rt.block_on(async {
             let mut node: Option<Node> = None;
-            let ctl = Arc::new(Mutex::new(Ctl { st: vec![], go: vec![], results: vec![], oplog: vec![], opened: vec![], eofs: vec![] }));
+            let ctl = Arc::new(Mutex::new(Ctl { st: vec![], go: vec![], results: vec![], oplog: vec![], opened: vec![], eofs: vec![], verdicts: vec![], unbuffered_decide: false }));
             let mut progs: Vec<Vec<String>> = vec![];
             let mut joins: Vec<tokio::task::JoinHandle<()>> = vec![];
             let mut cause: Option<String> = None;
@@ -237,6 +241,8 @@ impl Group for SchedGroup {
                         let parked: Vec<usize> = { let c = ctl.lock().unwrap(); (0..c.st.len()).filter(|i| matches!(c.st[*i], St::Parked(_))).collect() };
                         if parked.is_empty() { out.obs.push(format!("none {}{}", status(&ctl), n.delta().await)); continue; }
                         let t = parked[k % parked.len()];
+                        let at_locked = matches!(&ctl.lock().unwrap().st[t], St::Parked(p) if p == "wf:locked");
+                        if at_locked && !n.session.is_closed() && !n.session.verif_buffering() { ctl.lock().unwrap().unbuffered_decide = true; }
                         { let c = ctl.lock().unwrap(); c.go[t].notify_one(); }
                         settle().await;
                         out.obs.push(format!("t={t} {}{}", status(&ctl), n.delta().await));
@@ -278,6 +284,8 @@ impl Group for SchedGroup {
                         for _ in 0..400 {
                             let parked: Vec<usize> = { let c = ctl.lock().unwrap(); (0..c.st.len()).filter(|i| matches!(c.st[*i], St::Parked(_))).collect() };
                             let Some(t) = parked.first().copied() else { break };
+                            let at_locked = matches!(&ctl.lock().unwrap().st[t], St::Parked(p) if p == "wf:locked");
+                            if at_locked && !n.session.is_closed() && !n.session.verif_buffering() { ctl.lock().unwrap().unbuffered_decide = true; }
                             { let c = ctl.lock().unwrap(); c.go[t].notify_one(); }
                             settle().await;
                         }
@@ -296,6 +304,7 @@ impl Group for SchedGroup {
                         let mut eofs: Vec<bool> = vec![];
                         for st in &streams { let (d, e) = read_all_available(st).await; eofs.push(e); datas.push(if closed_now { vec![] } else { d }); }
                         ctl.lock().unwrap().eofs = eofs;
+                        let mut verdicts_tmp: Vec<String> = vec![];
                         {
                             let mut c = ctl.lock().unwrap();
                             for (k, hd) in c.opened.iter_mut().enumerate() {
@@ -306,6 +315,7 @@ impl Group for SchedGroup {
                                     _ => "dropped".into(),
                                 };
                                 let sid = hd.stream.id();
+                                verdicts_tmp.push(sy.clone());
                                 // O (C01/C10): what arrived for a stream whose SYN was on the wire reaches its reader / its opener
                                 if !closed_now && cause.is_none() {
                                     if let Some(want) = fed_data.get(&sid) {
@@ -318,6 +328,7 @@ impl Group for SchedGroup {
                                 objs.push((sid, format!("{}:{}:{}:{}", sid, hd.stream.is_closed() as u8, sy, if closed_now { "?".to_string() } else { hex(&datas[k]) })));
                             }
                         }
+                        ctl.lock().unwrap().verdicts = verdicts_tmp;
                         objs.sort();
                         out.obs.push(format!("{head} closed={} streams=[{}] recv=[{}] buf={},{} objs=[{}]", n.session.is_closed() as u8, fmt(&a), fmt(&b), bf as u8, bl, objs.iter().map(|x| x.1.clone()).collect::<Vec<_>>().join(",")));
                         oracles(&mut out, &ctl, n, &progs, &cause).await;
@@ -371,6 +382,20 @@ async fn oracles(out: &mut Outcome, ctl: &Arc<Mutex<Ctl>>, n: &mut Node, progs: 
             if !hd.stream.is_closed() && !c.eofs.get(k).copied().unwrap_or(false) {
                 out.oracle.push(OracleFail { sig: "stream_not_released/session_concurrent".into(), detail: format!("stream {} of the closed session is not closed: its reader never reaches end of stream", hd.stream.id()) });
             }
+        }
+    }
+    if terminated && closed {
+        for (k, hd) in c.opened.iter().enumerate() {
+            if c.verdicts.get(k).map(|v| v == "pending").unwrap_or(false) {
+                out.oracle.push(OracleFail { sig: "pending_open_unresolved/session_concurrent".into(), detail: format!("the session is closed and the open of stream {} is still pending: its opener waits for the 30 s timer", hd.stream.id()) });
+            }
+        }
+    }
+    // ---- C11: once a write_frame has decided with buffering off, the buffer was flushed and nothing is ever buffered again
+    if c.unbuffered_decide && !closed && no_failure_early(n) {
+        let bl = tokio::time::timeout(WATCHDOG, n.session.verif_buffer_state()).await.map(|x| x.1).unwrap_or(0);
+        if bl > 0 {
+            out.oracle.push(OracleFail { sig: "frame_stranded_in_buffer/wire".into(), detail: format!("{bl} bytes sit in the send buffer although a write_frame ran with buffering off before: an accepted frame never reached the transport") });
         }
     }
     // ---- C02: every stream of a session has its own id
@@ -453,6 +478,8 @@ async fn oracles(out: &mut Outcome, ctl: &Arc<Mutex<Ctl>>, n: &mut Node, progs: 
         }
     }
 }
+
+fn no_failure_early(n: &Node) -> bool { n.wire.lock().unwrap().budget != Some(0) }
 
 /// which task's open produced stream `sid` (from the order in which opens registered: not observable directly;
 /// approximated by the marker-free rule: the task whose oplog has an ok open and whose handle has that id)
